@@ -251,12 +251,12 @@ CELLS = {
 PLANS = {
     "C01": [("core", ["typed1", "unsafe1", "exch8", "typed11", "typedfill", "mapt1"]), ("rel", ["typed1", "unsafe2", "mapt1"]),
             ("drive:wide", ["typed1", "unsafe2", "exch8", "mapt42"]), ("drive:plain", ["typed11", "unsafe1"]),
-            ("drive:big", ["typed1", "unsafe3"]), ("drive:rich", ["typed1", "unsafe2"]), ("suite", [])],
+            ("drive:big", ["typed1", "unsafe3"]), ("drive:rich", ["typed1", "unsafe2"]), ("drive:arity", ["typed11"]), ("suite", [])],
     "C02": [("core", ["typed1", "unsafe1"]), ("rel", ["typed11", "unsafe1"]), ("drive:wide", ["typed1", "unsafe2"]),
-            ("drive:rel2", ["typed11", "unsafe1"]), ("dump", ["typed1", "unsafe2"]), ("drive:reset", ["typed1", "unsafe2"]), ("suite", []), ("poolind", [])],
+            ("drive:rel2", ["typed11", "unsafe1"]), ("dump", ["typed1", "unsafe2"]), ("drive:reset", ["typed1", "unsafe2"]), ("drive:arity", ["typed11"]), ("suite", []), ("poolind", [])],
     "C03": [("core", ["typed1", "unsafe1", "typedfill"]), ("rel", ["typed1", "unsafe1", "typed11"]), ("cache", ["typed1"]),
             ("drive:wide", ["typed1", "unsafe2"]), ("drive:rel2", ["typed11", "unsafe1"]), ("drive:lock", ["typed1", "typed11", "unsafe2"]),
-            ("cursor", [])],
+            ("drive:arity", ["typed11"]), ("cursor", [])],
     "C04": [("rel", ["typed1", "unsafe1", "typed11", "unsafe2"]), ("drive:rel2", ["typed11", "unsafe1"]),
             ("drive:wide", ["typed1", "unsafe2"]), ("suite", [])],
     "C05": [("cache", ["typed1", "typed11", "unsafe1"]), ("drive:wide", ["typed1", "unsafe2"]), ("drive:rel2", ["typed11", "unsafe1"])],
@@ -271,11 +271,11 @@ PROP_CFG = {
 PLANS["C08"] = [("obsmodel", []), ("obsenum", ["typed1", "unsafe2", "mapt1"]), ("obs", ["typed1", "unsafe2", "typed11"]), ("drive:obs", ["typed1", "unsafe2", "typed11", "mapt42"]),
                 ("drive:obs2", ["typed11", "unsafe1", "mapt1"])]
 PLANS["C09"] = [("obs", ["typed1", "unsafe2", "typed11", "mapt1"]), ("drive:obs", ["typed1", "unsafe2", "typed11", "mapt42"]),
-                ("drive:obs2", ["typed11", "unsafe1", "mapt1"])]
+                ("drive:obs2", ["typed11", "unsafe1", "mapt1"]), ("drive:arity", ["typed11"])]
 PROP_CFG["C08"] = (dict(probes=1), dict(probes=2))
 PROP_CFG["C09"] = (dict(probes=1), dict(probes=2))
 PLANS["C06"] = [("batch", ["typed1", "typed11", "exch8", "typed53"]), ("drive:wide", ["typed1", "exch8", "typed53"]),
-                ("drive:rel2", ["typed11", "typed1"]), ("drive:rich", ["typed1", "exch8"]), ("suite", [])]
+                ("drive:rel2", ["typed11", "typed1"]), ("drive:rich", ["typed1", "exch8"]), ("drive:arity", ["typed11", "exch8"]), ("suite", [])]
 PLANS["C19"] = [("statsmodel", []), ("core", ["typed1", "unsafe1"]), ("cache", ["typed1", "unsafe2"]),
                 ("drive:wide", ["typed1", "unsafe2", "typed53"]), ("drive:lock", ["typed1", "unsafe1"]), ("drive:obs", ["typed11"])]
 PROP_CFG["C19"] = (dict(probes=1, stats=True), dict(probes=2, stats=True))
@@ -283,14 +283,14 @@ PLANS["C18"] = [("res", ["typed1", "unsafe2", "mapt1"]), ("drive:reset", ["typed
 PLANS["C16"] = [("cache", ["typed1", "unsafe2"]), ("res", ["typed1", "unsafe2", "mapt1"]), ("drive:reset", ["typed1", "unsafe2", "typed11"]), ("drive:reset2", ["typed11", "unsafe1"])]
 PLANS["C17"] = [("dump", ["typed1", "unsafe2", "typed53"]), ("drive:reset", ["typed1", "unsafe2", "typed11", "typed53"]), ("drive:reset2", ["typed11", "unsafe1"])]
 PLANS["C11"] = [("core", ["typed1", "unsafe1", "exch8", "mapt1"]), ("batch", ["typed1", "typed53"]),
-                ("drive:mem", ["typed1", "unsafe2", "exch8", "typed11", "mapt42"]), ("drive:big", ["typed1", "unsafe3", "typed53"]), ("drive:mem64", ["typed1", "unsafe3", "typed53"])]
+                ("drive:mem", ["typed1", "unsafe2", "exch8", "typed11", "mapt42"]), ("drive:big", ["typed1", "unsafe3", "typed53"]), ("drive:mem64", ["typed1", "unsafe3", "typed53"]), ("drive:arity", ["typed11"])]
 PLANS["C07"] = [("lock", ["typed1", "unsafe2", "typed11"]), ("drive:lock", ["typed1", "unsafe2", "typed11"]), ("drive:lock64", ["typed1", "unsafe1"]),
                 ("drive:arity", ["typed11", "exch8"]),
                 ("cursor", []), ("suite", []), ("lockind", [])]
 PROP_CFG["C07"] = (dict(probes=2, misuse=8), dict(probes=4, misuse=-1))
 PLANS["C10"] = [("core", ["typed1", "unsafe1", "exch8", "mapt1"]), ("rel", ["typed1", "unsafe1", "typed11", "mapt1"]),
                 ("drive:rel2", ["typed11", "unsafe1", "mapt42"]), ("drive:wide", ["typed1", "unsafe2", "exch8"]),
-                ("drive:lock", ["typed1", "unsafe2"]), ("drive:reset2", ["typed11", "unsafe1"]), ("suite", [])]
+                ("drive:lock", ["typed1", "unsafe2"]), ("drive:reset2", ["typed11", "unsafe1"]), ("drive:arity", ["typed11"]), ("suite", [])]
 
 
 # ------------------------------------------------------------------------------------------
@@ -1671,11 +1671,14 @@ def check_c14(ctx):
     cover = {}
     product_check(ctx, "C14", variants, sources, "c14", cover=cover)
     missing = [a for a in REQUIRED_API if cover.get(a, 0) == 0]
-    for attempt in (1, 2):
+    for attempt in (1, 2, 3):
         if not missing:
             break
-        # top up: more coverage-guided histories (another driver seed) until every generated variant was called
-        extra = driven_sources(ctx, b, ["arity"], dict(arity=160), "typed11", dict(typedobs=True, seed=ctx.seed * 31 + 5000 * attempt))
+        # top up: more coverage-guided histories (another driver seed), concentrated on the arities of the variants
+        # that were not called yet, until every generated variant was called
+        ar = sorted({int(re.search(r"(\d+)\.", a + ".").group(1)) if re.search(r"\d", a.split(".")[0]) else 1 for a in missing})
+        extra = driven_sources(ctx, b, ["arity"], dict(arity=120), "typed11",
+                               dict(typedobs=True, seed=ctx.seed * 31 + 5000 * attempt, gridarity=ar))
         for s_ in extra:
             for k in ("path", "caps", "relst", "perm", "fill", "mapt"):
                 s_[-1].pop(k, None)
